@@ -6,11 +6,14 @@
    run_impl = the code: Python calls (positional + keyword arguments) bound against each
    evaluate() signature, inspect-based accepts_seats / accepts_prev_gains dispatch.
    run_spec = the by-hand composition over semantic arguments, deciding what a part is given
-   from what it semantically takes.  The shared parts (VoteTotals, SubsettedVotes,
-   add_dict_to_dict, tie replacement) are one definition used by both - the theorem is about
-   forwarding; the parts are characterised separately below and tied to the code by correspondence. *)
+   from what it semantically takes.  VoteTotals and SubsettedVotes have a code-shaped definition
+   (run_impl: nested add_dict_to_dict, defaultdict accumulation) and a declarative one (run_spec:
+   sums in first-appearance order, a filter), proved equal on every value (C14_parts_agree), so the
+   composition theorem speaks about them too; add_dict_to_dict at one level, the tie replacement and
+   the unused-vote arithmetic are one definition used by both, characterised separately below and
+   tied to the code by correspondence. *)
 From Coq Require Import ZArith List Bool Lia.
-From VL Require Import Model.Wrappers Proofs.Wrappers_proofs Proofs.TieBreak_proofs.
+From VL Require Import Model.Wrappers Proofs.Wrappers_proofs Proofs.TieBreak_proofs Proofs.WrapParts_proofs.
 Import ListNotations.
 Open Scope Z_scope.
 
@@ -166,7 +169,7 @@ Proof. exact tiebreaker_sees_only_tied. Qed.
 Theorem C14_tiebreak_untied : forall brk votes l,
   existsb (fun x => match x with VKey k => is_tie k | _ => false end) l = false ->
   break_ties brk votes (VList l) = Ok (VList l).
-Proof. intros brk votes l H. unfold break_ties. rewrite H. reflexivity. Qed.
+Proof. intros brk votes l H. unfold break_ties, break_ties_g. rewrite H. reflexivity. Qed.
 
 (* ---- closed party lists: a party that won n seats gets the first n candidates of its list *)
 Theorem C14_partylist_closed : forall pl party n l,
@@ -175,7 +178,43 @@ Theorem C14_partylist_closed : forall pl party n l,
                length (firstn (Z.to_nat n) ll) = Nat.min (Z.to_nat n) (length ll).
 Proof. exact closed_list_spec. Qed.
 
+(* ---- the shared parts: the code-shaped definitions compute the declarative ones *)
+(* VoteTotals on integer counts: the candidates in the order of their first appearance, each with the sum of its counts *)
+Theorem C14_totals_declarative : forall d, nested_int d = true ->
+  vote_totals (VDict d) = Ok (VDict (totals_table (entries d))) /\
+  forall k, dget (totals_table (entries d)) k =
+            if memk k (keys_first (entries d)) then Some (VInt (total_of (entries d) k)) else None.
+Proof. intros d H. split; [exact (totals_declarative d H)|intro k; apply totals_table_lookup]. Qed.
+
+(* SubsettedVotes(SimpleSubsetter) on integer counts without repeated keys: the votes filtered to the subset *)
+Theorem C14_subset_declarative : forall d s, int_dict d = true -> nodup_keys d = true -> subset_kind s = true ->
+  subset_votes (VDict d) s = Ok (VDict (filter (fun kv => mem_b s (fst kv)) d)).
+Proof. exact subset_declarative. Qed.
+
+(* the declarative parts used by run_spec and the code-shaped parts used by run_impl agree on EVERY value *)
+Theorem C14_parts_agree :
+  (forall v, totals_s v = vote_totals v) /\ (forall v s, subset_s v s = subset_votes v s).
+Proof. split; [exact totals_s_eq|exact subset_s_eq]. Qed.
+
+Example C14_parts_nonvacuous :
+  let v := VDict [(KC 101, VDict [(KC 1, VInt 60); (KC 2, VInt 30)]); (KC 102, VDict [(KC 3, VInt 5); (KC 1, VInt 10)])] in
+  nested_int [(KC 101, VDict [(KC 1, VInt 60); (KC 2, VInt 30)]); (KC 102, VDict [(KC 3, VInt 5); (KC 1, VInt 10)])] = true /\
+  totals_s v = Ok (VDict [(KC 1, VInt 70); (KC 2, VInt 30); (KC 3, VInt 5)]) /\
+  subset_s (VDict [(KC 1, VInt 70); (KC 2, VInt 30); (KC 3, VInt 5)]) (VList [VKey (KC 3); VKey (KC 1)])
+  = Ok (VDict [(KC 1, VInt 70); (KC 3, VInt 5)]).
+Proof. vm_compute. repeat split. Qed.
+
+(* ---- UnusedVotesDistributor: the seats still to give after a stage = the seats before minus the seats of THIS stage's
+   result (previous gains and the running total do not enter) *)
+Theorem C14_unused_seats_left : forall n res, int_dict res = true ->
+  sub_gained 0 (VInt n) (VDict res) = Ok (VInt (n - sumz res)).
+Proof. exact seats_left_after_stage. Qed.
+
 Print Assumptions C14_compose_partial.
+Print Assumptions C14_totals_declarative.
+Print Assumptions C14_subset_declarative.
+Print Assumptions C14_parts_agree.
+Print Assumptions C14_unused_seats_left.
 Print Assumptions C14_compose_seated_partial.
 Print Assumptions C14_seat_number_to_seatless_refuted.
 Print Assumptions C14_compose_unfaithful_refuted.
